@@ -5,7 +5,15 @@ From Coq Require Import Strings.String Strings.Byte.
 From Coq Require Import List NArith.
 From Goit Require Import Bytes Regex GoRegex Reflog Repo RegexFacts ReflogFacts.
 From Goit Require Import Obj Tree Index Commit World ExactFacts.
+From Goit Require Import Bridge.
 Import ListNotations.
+
+(* T0 (tie to the source): every regexp literal of the current Go source denotes
+   the same language, with the same anchoring, as the pattern of the model — proved
+   by running the verified equivalence checker on SrcRegex.v, which is regenerated
+   from /repo on every run (see Bridge.v) *)
+Theorem C08_source_patterns_are_the_models : source_patterns_agree.
+Proof. exact source_patterns. Qed.
 
 (* every "HEAD@{<n>}" is accepted and denotes n, for every n (any number of digits) *)
 Theorem C08_reset_arg_accepts : forall n,
@@ -84,3 +92,4 @@ Print Assumptions C08_soft_spec.
 Print Assumptions C08_mixed_spec.
 Print Assumptions C08_hard_spec.
 Print Assumptions C08_hard_never_touches_other_files.
+Print Assumptions C08_source_patterns_are_the_models.
